@@ -102,6 +102,21 @@ example : decodeBlock { kind := .fixed 1, nullable := true, enc := .plain, block
     (encodeBlock { kind := .fixed 1, nullable := true, enc := .plain, blockSize := 64 } [some [1], none, some [0]])
     = some [some [1], none, some [0]] := by decide
 
+/-- fixed-width char (zero padded to the char width), nullable: exact for ANY list of items that
+fit the width and contain no NUL byte (`char_embedded_nul_witness` shows the second hypothesis is
+forced; a longer item makes the builder panic). -/
+theorem block_roundtrip_plain_char (w bs : Nat) (ck : CkType) (cells : List Cell)
+    (h : CharOk w cells) (hlen : cells.length < 2 ^ 32) :
+    decodeBlock { kind := .char w, nullable := true, enc := .plain, blockSize := bs, ck } cells.length
+        (encodeBlock { kind := .char w, nullable := true, enc := .plain, blockSize := bs, ck } cells)
+      = some cells := by
+  rw [block_roundtrip_plain_of _ rfl cells (fun t r => plain_char_roundtrip w t cells h r) hlen]
+  rw [map_storedCell_true]
+
+example : decodeBlock { kind := .char 3, nullable := true, enc := .plain, blockSize := 64 } 3
+    (encodeBlock { kind := .char 3, nullable := true, enc := .plain, blockSize := 64 } [some [97], none, some [98, 99, 100]])
+    = some [some [97], none, some [98, 99, 100]] := by decide
+
 /-- FULL statement for the non-nullable encodings (kept visible): every list of cells, NULLs
 included, reads back unchanged. It is false for the code that exists. -/
 def NonNullableRoundtripFull : Prop :=
@@ -147,6 +162,69 @@ theorem index_covers (o : ColOpts) (bt : Nat) (xs : List Cell) :
 example : ((buildColumn { kind := .fixed 4, nullable := false, enc := .plain, blockSize := 24 } 0
     [some [1,0,0,0], some [2,0,0,0], some [3,0,0,0]]).2.map (fun e => (e.firstRowid, e.rowCount))) = [(0, 2), (2, 1)] := by
   decide
+
+
+/-! ## reads: the full statement and why it fails on the code that exists -/
+
+/-- a returned batch is the slice of the written cells at the reported row id -/
+def batchIsSlice (xs : List Cell) : IterOut → Bool
+  | .batch r cells => cells == (xs.drop r).take cells.length
+  | _ => true
+
+/-- build the column, decode its blocks, run a read program from `start` -/
+def readColumn (o : ColOpts) (bt : Nat) (xs : List Cell) (start : Nat) (ops : List IterOp) :
+    Option (List IterOut) :=
+  (blockInfos o (buildColumn o bt xs).1 (buildColumn o bt xs).2).map
+    fun blocks => runOps (ColIter.new blocks (defaultItem o.kind) start) ops
+
+/-- FULL statement of the read side of C06 (kept visible): for every nullable column, every start
+row and every read program, each returned (row_id, batch) is the slice of the input at row_id. -/
+def IterRefinesSliceFull : Prop :=
+  ∀ (o : ColOpts) (bt : Nat) (xs : List Cell) (start : Nat) (ops : List IterOp) (outs : List IterOut),
+    o.nullable = true → start ≤ xs.length →
+    readColumn o bt xs start ops = some outs → ∀ out ∈ outs, batchIsSlice xs out = true
+
+/-- REFUTED for the code that exists: on a plain nullable column a batch that spans two blocks
+comes back with the last block's validity bitmap only (`replace_bitmap`), i.e. with the wrong
+length and the wrong NULLs. Three i32 cells `[1, NULL, 3]`, block size 24 (one row per block),
+`next_batch(Some 2)` from row 0 returns the single row `[NULL]` at row id 0. -/
+theorem nullable_cross_block_witness : ¬ IterRefinesSliceFull := by
+  intro h
+  have := h { kind := .fixed 4, nullable := true, enc := .plain, blockSize := 24 } 3
+    [some [1, 0, 0, 0], none, some [3, 0, 0, 0]] 0 [.next (some 2)]
+    [.batch 0 [none]] rfl (by decide) (by decide +kernel) (.batch 0 [none]) (by simp)
+  revert this; decide
+
+/-- what the model (and the implementation, corpus/C06 line 1) return on the witness -/
+example : readColumn { kind := .fixed 4, nullable := true, enc := .plain, blockSize := 24 } 3
+    [some [1, 0, 0, 0], none, some [3, 0, 0, 0]] 0 [.next (some 2), .next none]
+    = some [.batch 0 [none], .batch 2 [some [3, 0, 0, 0]]] := by decide +kernel
+
+/-- FULL statement for fixed-width char (kept visible): every item of at most `w` bytes reads back. -/
+def CharRoundtripFull : Prop :=
+  ∀ (w : Nat) (cells : List Cell), (∀ it, some it ∈ cells → it.length ≤ w) →
+    decodeBlock { kind := .char w, nullable := true, enc := .plain, blockSize := 64 } cells.length
+      (encodeBlock { kind := .char w, nullable := true, enc := .plain, blockSize := 64 } cells) = some cells
+
+/-- REFUTED: zero padding is the length marker, so an item with an embedded NUL byte is cut. -/
+theorem char_embedded_nul_witness : ¬ CharRoundtripFull := by
+  intro h
+  have := h 4 [some [120, 0, 121]] (by intro it hit; simp at hit; subst hit; decide)
+  revert this; decide +kernel
+
+/-- FULL statement for RLE over f64 (kept visible). -/
+def RleF64RoundtripFull : Prop :=
+  ∀ cells : List Cell, FixedOk 8 cells →
+    decodeBlock { kind := .fixed 8, eq := .f64, nullable := true, enc := .rle, blockSize := 64 } cells.length
+      (encodeBlock { kind := .fixed 8, eq := .f64, nullable := true, enc := .rle, blockSize := 64 } cells) = some cells
+
+/-- REFUTED: runs are detected with `OrderedFloat`'s equality, under which `-0.0 == 0.0`; the
+second cell joins the run of the first and reads back as `+0.0`. -/
+theorem rle_eq_not_identity_witness : ¬ RleF64RoundtripFull := by
+  intro h
+  have := h [some (leBytes 8 0), some (leBytes 8 0x8000000000000000)]
+    (by intro it hit; simp at hit; rcases hit with rfl | rfl <;> rfl)
+  revert this; decide +kernel
 
 
 /-! ## tie to the constants regenerated from the source on every run (`RlModel.Gen.Consts`) -/
